@@ -216,6 +216,43 @@ def _worker_procs(chunk):
     return out
 
 
+def type_twin(cfg: dict) -> Optional[dict]:
+    """The configuration with every integer-valued float in node parameters and sweep value lists written as an int (and ints as
+    floats): == to the original value by value, another configuration all the same.  None if nothing changes."""
+    def tw(x):
+        if isinstance(x, bool):
+            return x
+        if isinstance(x, float) and x == x and abs(x) < 1e15 and x.is_integer():
+            return int(x)
+        if isinstance(x, int):
+            return float(x)
+        if isinstance(x, list):
+            return [tw(v) for v in x]
+        if isinstance(x, dict):
+            return {k: tw(v) for k, v in x.items()}
+        return x
+
+    out = copy.deepcopy(cfg)
+    changed = False
+    for node in out["pipeline"]["nodes"]:
+        if isinstance(node.get("parameters"), dict):
+            new = tw(node["parameters"])
+            changed |= json.dumps(new) != json.dumps(node["parameters"])
+            node["parameters"] = new
+        sw = (node.get("derive") or {}).get("parameter_sweep")
+        if sw:
+            for var, spec in sw.get("variables", {}).items():
+                if isinstance(spec, dict) and "values" in spec:
+                    new = tw(spec["values"])
+                    changed |= json.dumps(new) != json.dumps(spec["values"])
+                    spec["values"] = new
+                elif isinstance(spec, list):
+                    new = tw(spec)
+                    changed |= json.dumps(new) != json.dumps(spec)
+                    sw["variables"][var] = new
+    return out if changed else None
+
+
 def check(tier: str, seed: int) -> Result:
     configs = idconfigs.base_configs(tier)
     viols: List[Violation] = []
@@ -247,6 +284,11 @@ def check(tier: str, seed: int) -> Result:
                 continue
             combos.append((hs, "scratch" if k % 2 == 0 else "root", (1.7e9 if k % 3 == 0 else 1.7e9 + 365 * 86400 if k % 3 == 1 else None), h))
         pjobs.append((i, configs[i], configs[(i + 5) % len(configs)], combos))
+    # B = the type twin of A (2 for 2.0 ...): whatever B leaves behind in the process must not be taken for A's
+    for i, c in enumerate(configs):
+        tw = type_twin(c)
+        if tw is not None and (tier == "thorough" or i % 2 == 0):
+            pjobs.append((i, c, tw, [("1", "scratch", None, h) for h in HIST_OPS if h.endswith("B")]))
     n_proc = with_trace = 0
     for o in core.pmap_chunks(_worker_procs, pjobs, chunk=1):
         n_proc += o["n"]
